@@ -195,7 +195,10 @@ def check_problem(spec, calls, counters, violations):
         va = optmon.mask_from_string(str(lg["vary_active"][i]))
         counters["log_rows_checked"] = counters.get("log_rows_checked", 0) + 1
         fx = S.f(np.array(knobs))
-        if not all(close(a, b, True) for a, b in zip(fx, T[i])):
+        # (bit-exact for unit weights; with other weights the evaluation happens at knob/weight*weight, one rounding
+        #  away from the recorded knob value, which the property allows)
+        if not all(close(a, b, True) if unit else (close(a, b, False) or math.isclose(float(a), float(b), rel_tol=1e-10, abs_tol=1e-12))
+                   for a, b in zip(fx, T[i])):
             issues.append("row %d records target values %s, an independent evaluation at its knobs gives %s" % (i, list(T[i]), list(fx)))
             break
         r = np.where(np.array(ta), (fx - np.array(row_tars[i])) * wt, 0.0)
@@ -235,6 +238,14 @@ def run_shard(spec_):
         return {"evaluations": 1, "digests": [], "samples": [], "counters": counters, "violations": violations, "known": []}
     for p in range(spec_["problems"]):
         spec = optmon.gen_problem(rng, families=("lin", "quad", "trig", "trig", "pole", "incons", "rankdef", "bowl", "bowl"))
+        if rng.random() < 0.2:
+            # limits not policed by the merit function, start point outside the limits of some knobs (what the option is
+            # for): row 0 records the point as it was, later rows the clipped ones
+            spec["check_limits"] = False
+            for i, lim in enumerate(spec["limits"]):
+                if lim is not None and rng.random() < 0.6:
+                    spec["x0"][i] = float(lim[1] + rng.uniform(0.1, 2.0)) if rng.random() < 0.5 else float(lim[0] - rng.uniform(0.1, 2.0))
+            counters["problems_without_limit_policing"] = counters.get("problems_without_limit_policing", 0) + 1
         calls = gen_calls(rng, spec)
         try:
             N, njac = check_problem(spec, calls, counters, violations)
